@@ -485,7 +485,7 @@ pub fn prop() -> Prop {
         ],
         direct: Some(direct),
         selftest: None,
-        fuzz: Some(FuzzSpec { target: "nopanic", runs: 100000, max_len: 300, tag: "C08", seed_corpus: Some("nopanic") }),
+        fuzz: Some(FuzzSpec { target: "nopanic", runs: 100000, max_len: 1000, tag: "C08", seed_corpus: Some("nopanic") }),
         insertion_order_stage: false,
     }
 }
